@@ -91,12 +91,13 @@ def run(ctx, shape, opts):
                     exp.append(Int(unk, 'u32'))
                     continue
                 c = run_chars[a]
-                hit = None
-                for k, ch in enumerate(alphabet):
-                    if ctx.branch(m.eq(c, Int(ord(ch), 'char'))):
-                        hit = k
-                        break
-                exp.append(Int(unk if hit is None else hit, 'u32'))
+                if isinstance(c.v, int):
+                    exp.append(Int(alphabet.index(chr(c.v)) if chr(c.v) in alphabet else unk, 'u32'))
+                else:
+                    t = z3.BitVecVal(unk, 32)
+                    for k in range(len(alphabet) - 1, -1, -1):
+                        t = z3.If(c.v == ord(alphabet[k]), z3.BitVecVal(k, 32), t)
+                    exp.append(Int(t, 'u32'))
             del run_chars[:]
         for s in segs:
             if s[0] == 's':
@@ -118,8 +119,8 @@ def run(ctx, shape, opts):
                     'decoding with special tokens kept returns the original text (between the prefix / suffix spellings)')
     else:
         # round trip over the alphabet: only when no unknown id was produced
-        if all(not (isinstance(e.v, int) and e.v == nreg + spec.index('<unk>')) for e in exp[len(pre):len(exp) - len(suf)]) or \
-                _unk_only_from_literal(segs, spec):
+        unk_id = Int(nreg + spec.index('<unk>'), 'u32')
+        if ctx.must(m.conj([m.bnot(m.eq(e, unk_id)) for e in exp[len(pre):len(exp) - len(suf)]])):
             ctx.require(d.variant == 'Ok' and ctx.must(chars_equal(ctx, out_chars(ctx, d.fields[0]), pre_s + list(chars) + suf_s)),
                         'decoding round-trips every text over the alphabet')
     ctx.sample = {'kind': kind, 'template': shape['template'], 'special': shape['special'], 'graphemes': g,
